@@ -36,17 +36,18 @@ SPEC = {
     "prop_files": ["InfernoVerif/Props/C07.lean"],
     "lemma_files": ["InfernoVerif/Lemmas/Trace.lean", "InfernoVerif/Lemmas/Reducer.lean"],
     "model_files": ["InfernoVerif/Model/Reducer.lean", "InfernoVerif/Gen/TraceF.lean", "InfernoVerif/Gen/TraceR.lean",
-                    "InfernoVerif/Gen/InterpolationF.lean", "InfernoVerif/Gen/InterpolationR.lean"],
-    "translate": ["Trace", "Interpolation"],
+                    "InfernoVerif/Gen/InterpolationF.lean", "InfernoVerif/Gen/InterpolationR.lean",
+                    "InfernoVerif/Gen/SmoothingF.lean", "InfernoVerif/Gen/SmoothingR.lean"],
+    "translate": ["Trace", "Interpolation", "Smoothing"],
     "driver_targets": ["InfernoVerif.Model.Reducer", "InfernoVerif.Gen.TraceF", "InfernoVerif.Gen.InterpolationF",
-                       "InfernoVerif.Gen.Dispatch"],
+                       "InfernoVerif.Gen.SmoothingF", "InfernoVerif.Gen.Dispatch"],
     "assumptions": [
         "theorems are over exact reals; the correspondence runs float64 with dyadic observations, amplitudes, times (exact) and compares "
         "to 1e-9 relative where exp is involved, bit-for-bit otherwise — partial (float)",
         "a reducer over a tensor = the one-element machine on every element (folds and kernels are element-wise); observation shapes are "
         "constant between deinitialisations (a shape change after clear(keepshape=True) raises in the code and is not generated)",
-        "EventReducer.fold, CAReducer.fold, exponential_smoothing and pass-through are hand transcribed ONCE, generic in the scalar type "
-        "(Model/Reducer.lean), not translator-generated (core/math.py is not in the translator's list); the einsum of "
+        "EventReducer.fold, CAReducer.fold and pass-through are hand transcribed ONCE, generic in the scalar type "
+        "(Model/Reducer.lean), not translator-generated (they are methods, not in the translator's list); the einsum of "
         "EligibilityTraceReducer is computed by the harness (the reducer is driven with one field element per site)",
         "the non-finite initial values of EventReducer ('inf', 'nan') are modelled in the theorems by one absorbing value XR.nonfin",
         "excluded from generation (reported as a candidate finding): growing the record (dt / duration assignment) while a non-zero-fill "
@@ -591,8 +592,19 @@ def corpus_cases():
     out = []
     if d.exists():
         for f in sorted(d.glob("*.json")):
-            out.append(json.loads(f.read_text()))
+            c = json.loads(f.read_text())
+            c["ops"] = unjson(c["ops"])
+            out.append(c)
     return out
+
+
+def unjson(a):
+    """inverse of `jsonable` (non-finite floats are stored as their repr)"""
+    if isinstance(a, str) and a in ("inf", "-inf", "nan"):
+        return float(a)
+    if isinstance(a, list):
+        return [unjson(x) for x in a]
+    return a
 
 
 # ---------------------------------------------------------------------------------------------
@@ -805,10 +817,10 @@ def build_cases(ctx, thorough):
     rng = ctx.rng
     cases = corpus_cases()
     ncorpus = len(cases)
-    per = 10 if not thorough else 40
-    length = 14 if not thorough else 30
+    per = 14 if not thorough else 120
+    length = 14 if not thorough else 36
     for kind in KINDS:
-        cases.append(exhaustive_case(rng, kind, 5 if not thorough else 7))
+        cases.append(exhaustive_case(rng, kind, 5 if not thorough else 8))
         for mode in ("plain", "clear", "config"):
             for _ in range(per):
                 cases.append(random_case(rng, kind, rng.randint(4, length), mode))
@@ -823,9 +835,9 @@ def _explore(ctx, use_driver: bool) -> Exploration:
         transval.validate(ctx, SPEC["translate"], ex, per_fn=40 if not thorough else 200)
     cases, ncorpus = build_cases(ctx, thorough)
     run_cases(ctx, cases, ex, use_driver)
-    functional_stream(ctx, ex, 45 if not thorough else 360, use_driver)
+    functional_stream(ctx, ex, 63 if not thorough else 900, use_driver)
     ex.rule = ("per reducer class (10 exported + EligibilityTraceReducer): one EXHAUSTIVE case (all 2^T boolean event histories at once, one "
-               "element per history, T=5 quick / 7 thorough) + seeded random operation sequences in three streams — plain (observe / peek / "
+               "element per history, T=5 quick / 8 thorough) + seeded random operation sequences in three streams — plain (observe / peek / "
                "dump / view), clear (interleaved clear(keepshape=True/False), shape change after deinitialisation), config (dt / duration "
                "assigned before the first observation and mid-run) — over dt in {1/4,1/2,1,2}, duration 0..6 steps (incl. non-integer), "
                "inclusive on/off, in-place on/off, boolean and dyadic real observations (on / at the edge of / outside the tolerance band), "
@@ -856,14 +868,7 @@ def replay(ctx, data) -> int:
     if "ops" not in case:
         print("replay file has no op sequence (proof/tie breakage without failing input):", data.get("broken"))
         return 1
-
-    def unj(a):
-        if isinstance(a, str) and a in ("inf", "-inf", "nan"):
-            return float(a)
-        if isinstance(a, list):
-            return [unj(x) for x in a]
-        return a
-    case = {"cfg": case["cfg"], "ops": unj(case["ops"])}
+    case = {"cfg": case["cfg"], "ops": unjson(case["ops"])}
     real, orc = run_real(case), run_oracle(case)
     try:
         resp = ctx.run_driver(DRIVER, case_lines(case))[1:]
